@@ -25,7 +25,7 @@ from elementpath.exceptions import ElementPathError
 from elementpath.namespaces import XSD_NAMESPACE, XSD_NOTATION, XSD_ANY_ATOMIC_TYPE, XSD_UNTYPED
 from elementpath.helpers import node_position, get_double
 from elementpath.namespaces import XSD_ERROR, get_namespace, get_expanded_name
-from elementpath.datatypes import UntypedAtomic, QName, AnyURI, \
+from elementpath.datatypes import AbstractDateTime, UntypedAtomic, QName, AnyURI, \
     Duration, Integer
 from elementpath.xpath_nodes import ElementNode, DocumentNode, XPathNode, AttributeNode, \
     NamespaceNode
@@ -574,6 +574,14 @@ def evaluate__value_comparison_operators(self: XPathToken, context: ta.ContextTy
     else:
         msg = "cannot apply {} between {!r} and {!r}".format(self, *operands)
         raise self.error('XPTY0004', msg)
+
+    if context is not None and context.timezone is not None and \
+            all(isinstance(x, AbstractDateTime) for x in operands):
+        # values without timezone are compared in the implicit timezone
+        for k in range(2):
+            if operands[k].tzinfo is None:
+                operands[k] = copy(operands[k])
+                operands[k].tzinfo = context.timezone
 
     try:
         return cast(bool, getattr(operator, self.symbol)(*operands))
